@@ -557,9 +557,21 @@ async fn spawn_pipeline_processes(
             }
         };
 
-        let mut spawn_result = command
+        let mut spawn_result = match command
             .execute_in_pipeline(pipeline_context, cmd_params)
-            .await?;
+            .await
+        {
+            Ok(spawn_result) => spawn_result,
+            Err(error) if !run_in_current_shell => {
+                // A command that runs in its own subshell takes only that subshell down
+                // with it (e.g., an unset variable under nounset in `echo $unset | cat`):
+                // report the error and go on with the stage's failure status.
+                let mut stderr = params.stderr(shell);
+                let _ = shell.display_error(&mut stderr, &error);
+                ExecutionSpawnResult::Completed(ExecutionExitCode::from(&error).into())
+            }
+            Err(error) => return Err(error),
+        };
 
         // A command that ran in its own subshell can't affect this shell's control flow
         // (e.g., `true | exit 3` or `true | break`); only its exit status is of interest.
